@@ -1,6 +1,7 @@
 import Props.SchedTie
 import TaskModel.Sched.DeferLemmas
 import TaskModel.Sched.MonVal
+import TaskModel.Sched.ProgInv
 /-!
 # C14 — Deferred commands always run, exactly once, in reverse order
 
@@ -8,6 +9,11 @@ Statements are about every trace the executor model accepts (`replay … = some 
 programs, flags, numbers and positions of `defer:` entries, failing positions and
 interleavings with other activations.  Tie: the `sched` correspondence replays the event
 log of the real executor through the same `replay`.
+
+Which statements say what (audit, session 3).  `C14_before_return`, `C14_exit_code`, `C14_outcome_unchanged` restate
+guards / definitions of the acceptor.  Trace-level: `C14_reverse_order`, `C14_all_run`, and — tying the acceptor's
+bookkeeping to the PROGRAM — `C14_regs_are_program`, `C14_all_run_program`, `C14_all_run_complete`.
+`C14_deferred_call_sees_exit_code`: semantics of the value monitor (`C02v`).
 -/
 namespace Props.C14
 open TaskModel.Sched
@@ -466,5 +472,38 @@ private def runD : List Label :=
 example : (replay progD {} (init 1) runD).isSome = true := by decide
 example : valMon passD progD {} 1 runD [(2, valNum 3), (1, 0)] = true := by decide
 example : valMon passD progD {} 1 runD [(2, 0)] = false := by decide
+
+/-! ## what was registered, read off the PROGRAM (trace-level, every reachable configuration)
+
+`C14_all_run` says `ran = regs.reverse` — about the acceptor's own bookkeeping.  `S2.ProgInv` ties the
+bookkeeping to the task's command list, so the statement becomes one about the program. -/
+
+/-- **C14 (the registered entries are the program's).** In every reachable configuration the deferred entries an
+activation has registered are exactly the `defer:` entries of its task's command list below the position its
+command loop has reached, in order — none is missed, none registered twice. -/
+theorem C14_regs_are_program (P : Program) (F : Flags) (n : Nat) (tr : List Label) (c : Config)
+    (h : replay P F (init n) tr = some c) (a : Nat) (x : Act) (hx : c.act? a = some x) :
+    x.regs = defersBelow x.def_.cmds x.idx :=
+  (S2.ProgInv_sound P F n tr c h a x hx).regs
+
+/-- **C14 (all of them run, in reverse order — program form).** An activation that has finished its deferred
+part has run exactly the `defer:` entries of the command list below the position where its body stopped, last
+one first — whether the body succeeded, failed or was cancelled. -/
+theorem C14_all_run_program (P : Program) (F : Flags) (n : Nat) (tr : List Label) (c : Config)
+    (h : replay P F (init n) tr = some c) (a : Nat) (x : Act) (hx : c.act? a = some x)
+    (hp : post x.phase = true) : x.ran = (defersBelow x.def_.cmds x.idx).reverse := by
+  rw [C14_all_run P F n tr c h a x hx hp, C14_regs_are_program P F n tr c h a x hx]
+
+/-- … and when the body ran to its end without a failure: EVERY `defer:` entry of the task -/
+theorem C14_all_run_complete (P : Program) (F : Flags) (n : Nat) (tr : List Label) (c : Config)
+    (h : replay P F (init n) tr = some c) (a : Nat) (x : Act) (hx : c.act? a = some x)
+    (hg : Ev.guardsPassed ∈ evsOf a tr) (hp : post x.phase = true) (ho : x.out = {}) :
+    x.ran = (defersBelow x.def_.cmds x.def_.cmds.length).reverse := by
+  have hpl : S2.postLoop x.phase = true := by
+    cases hph : x.phase <;> rw [hph] at hp <;> first | (cases hp; done) | rfl
+  obtain ⟨_, _, hr⟩ := S2.loop_complete P F n tr c h a x hx hg hpl ho
+  rw [C14_all_run P F n tr c h a x hx hp, hr]
+
+example : defersBelow prog.head!.cmds 5 = [0, 2] ∧ plainBelow prog.head!.cmds 5 = [1, 3, 4] := by decide
 
 end Props.C14
